@@ -19,12 +19,18 @@
   Fix round: `update_qnoise_factor(<tf.Variable>)` on a python-float factor follows the repaired
   code (`K.get_value`) — see `QState.updateFromVar`.
 
+  Strengthening round (seed C07-4): `Sys` — any number of quantizer objects plus caller-owned
+  `tf.Variable`s under interleaved histories (`MOp`), with the aliasing-free semantics of the code
+  (`update_qnoise_factor(<variable>)` copies the variable's current value; `build` makes a fresh
+  Variable): the factor of a quantizer is private state.
+
   Numbers are exact rationals.  The float32 / float64 roundings the real code performs are
   explicit: every model function that rounds takes the rounding(s) as a parameter (`Rnd`), the
   driver instantiates them with `rnd32` / `rnd64` below (IEEE-754 round-to-nearest-even, no
   overflow handling), the theorems hold for every rounding with the stated hypotheses.
 -/
 import QKV.Model.Basic
+import QKV.Model.FixedQ
 namespace QKV.QNoise
 
 /-! ## exact mixing expressions (the two return forms + quantized_linear's) -/
@@ -174,6 +180,89 @@ def lastWrite : List Op → Option Rat
   | .updateFromVar v :: ops => (lastWrite ops).or (some v)
   | _ :: ops => lastWrite ops
 
+/-! ## several quantizers and caller-owned variables  (strengthening round, seed C07-4)
+
+  `update_qnoise_factor(w)` with `w` a `tf.Variable` COPIES the current value of `w`
+  (`self.qnoise_factor.assign(w)` for a Variable store, `K.get_value(w)` for a python store);
+  `build(use_variables=True)` makes a FRESH Variable.  So the attribute of a quantizer never is a
+  variable somebody else holds: the factor of every quantizer is private state.  The system below
+  spells that semantics out for any number of quantizer objects `q 0, q 1, …` and any number of
+  caller-owned float32 variables `w 0, w 1, …` (both indexed by identity), with the operations a
+  caller can interleave:
+
+    * `local i op`            any single-quantizer operation `op` on `q i`
+    * `updateFromCaller i k`  `q_i.update_qnoise_factor(w_k)`
+    * `updateFromQuant i j`   `q_i.update_qnoise_factor(q_j.qnoise_factor)` (the attribute of
+                              another quantizer: its Variable, or its python number)
+    * `assign k v`            `w_k.assign(v)` — the caller's own code, not qkeras -/
+
+/-- point update of a total map -/
+def setAt {α : Type} (f : Nat → α) (i : Nat) (a : α) : Nat → α := fun j => if j = i then a else f j
+
+structure Sys where
+  /-- the quantizer objects, by identity -/
+  q : Nat → QState
+  /-- the caller-owned float32 `tf.Variable`s, by identity: current value -/
+  w : Nat → Rat
+
+inductive MOp where
+  | local (i : Nat) (op : Op)
+  | updateFromCaller (i k : Nat)
+  | updateFromQuant (i j : Nat)
+  | assign (k : Nat) (v : Rat)
+deriving Repr, DecidableEq, Inhabited
+
+/-- the quantizer an operation is addressed to (`assign` is addressed to none) -/
+def MOp.target : MOp → Option Nat
+  | .local i _ => some i
+  | .updateFromCaller i _ => some i
+  | .updateFromQuant i _ => some i
+  | .assign _ _ => none
+
+/-- the caller's variable an operation writes (only the caller's own `assign` writes one) -/
+def MOp.assigns : MOp → Option Nat
+  | .assign k _ => some k
+  | _ => none
+
+/-- what the operation means for quantizer `b` alone: the single-quantizer operation it performs
+    on `b`, with the value of a source variable read NOW — or nothing at all if it is addressed
+    elsewhere. -/
+def MOp.resolve (s : Sys) (b : Nat) : MOp → Option Op
+  | .local i op => if i = b then some op else none
+  | .updateFromCaller i k => if i = b then some (.updateFromVar (s.w k)) else none
+  | .updateFromQuant i j =>
+    if i = b then
+      some (match (s.q j).store with
+            | .var v => .updateFromVar v
+            | .py v => .update v)
+    else none
+  | .assign _ _ => none
+
+/-- `update_qnoise_factor(other.qnoise_factor)`: the attribute of another quantizer is its Variable
+    (→ the `tf.Variable` branch, value copied) or its python number (→ the number branch) -/
+def QState.updateFromAttr (rd : Rnd) (s : QState) : Store → QState
+  | .var v => (s.updateFromVar v).1
+  | .py v => s.update rd v
+
+/-- one operation of the whole system -/
+def Sys.step (rd : Rnd) (s : Sys) : MOp → Sys
+  | .local i op => { s with q := setAt s.q i ((s.q i).step rd op).1 }
+  | .updateFromCaller i k => { s with q := setAt s.q i ((s.q i).updateFromVar (s.w k)).1 }
+  | .updateFromQuant i j => { s with q := setAt s.q i ((s.q i).updateFromAttr rd (s.q j).store) }
+  | .assign k v => { s with w := setAt s.w k (rd.r32 v) }
+
+def Sys.run (rd : Rnd) (s : Sys) : List MOp → Sys
+  | [] => s
+  | m :: ms => Sys.run rd (s.step rd m) ms
+
+/-- the history of quantizer `b` alone inside an interleaved history of the whole system -/
+def proj (rd : Rnd) (b : Nat) : Sys → List MOp → List Op
+  | _, [] => []
+  | s, m :: ms =>
+    match m.resolve s b with
+    | some op => op :: proj rd b (s.step rd m) ms
+    | none => proj rd b (s.step rd m) ms
+
 /-! ## the float32 evaluation of the mixing expressions
 
   TF's eager elementwise kernels perform `neg/add/sub/mul` one at a time in float32; every step is
@@ -210,5 +299,31 @@ def mixLinearExactB (rd : Rnd) (s q : Rat) (st : Store) : Bool :=
   let f := st.asF rd
   decide (rd.r32 (q - s) = q - s) && decide (rd.r32 (f * (q - s)) = f * (q - s))
     && decide (rd.r32 (s + f * (q - s)) = s + f * (q - s))
+
+/-! ## quantized_relu with the knob, in full  (strengthening round, seed C07-6)
+
+  `quantized_relu.__call__` (`use_sigmoid = 0`): `x_u` (`ReluCfg.act`, the activation the noise is
+  mixed with: leaky relu clipped by the quantized maximum, or by `relu_upper_bound`), `xq`
+  (`qrelu`), then — in this order —
+      if self.relu_upper_bound and not self.is_quantized_clip: xq = where(xq <= ub, xq, ub)
+      return mix(x_u, xq, qnoise_factor)
+  i.e. the bound is applied to the QUANTIZED value before the mix (`qreluU`), never to the mixed
+  result.  `FixedQ` (shared with C01/C02, unchanged here) supplies `ReluCfg`, `act`, `qrelu`,
+  `qreluU`, `clampTo`. -/
+
+/-- `quantized_relu(bits, integer, negative_slope=2^-k, relu_upper_bound, is_quantized_clip,
+    qnoise_factor=f, use_ste)(x)` -/
+def reluNoise (t : Tie) (c : ReluCfg) (f : Rat) (useSte : Bool) (x : Rat) : Rat :=
+  mix (c.act x) (qreluU t c x) f useSte
+
+/-- NOT the code: the bound applied once, to the mixed result (what a "clip once, on the output"
+    rewrite computes).  Kept for the counterexample that the order matters. -/
+def reluNoiseClampAfter (t : Tie) (c : ReluCfg) (f : Rat) (useSte : Bool) (x : Rat) : Rat :=
+  clampTo c.clamp (mix (c.act x) (qrelu t c x) f useSte)
+
+/-- float32 evaluation of the call on float32 inputs for which `x_u` and `xq` are computed without
+    rounding (dyadic `x`; the driver's inputs) -/
+def reluNoiseF (rd : Rnd) (t : Tie) (c : ReluCfg) (st : Store) (useSte : Bool) (x : Rat) : Rat :=
+  mixF rd (c.act x) (qreluU t c x) st useSte
 
 end QKV.QNoise
